@@ -36,7 +36,7 @@ BOUNDS = {
            "element kinds (ruby patterns, br, nested div/span, xml:space/lang) x 4 configurations; time grid: begin/end/"
            "animation offsets over {k ms, k frames, between} x {none, clock_time, frames, clock_time_with_frames} x "
            "{24,25,30,50,60,24000/1001,30000/1001}; document parameters",
-  "thorough": "same with the full time value grid on two nesting levels",
+  "thorough": "the style grid under all 29 writer configurations (every syntax x every frame rate); the rest as quick",
 }
 ASSUMPTIONS = [
   "numbers are compared with relative tolerance 1e-5 (the writer prints 6 significant digits)",
@@ -437,10 +437,10 @@ CONFIGS_SMALL = [None, ("clock_time", None), ("frames", (25, 1)), ("clock_time_w
 CONFIGS_ALL = [None] + [(s, None if f is None else (f.numerator, f.denominator)) for s in SYNTAX for f in [None] + FPS]
 
 
-def fam_styles():
+def fam_styles(configs=None):
   from mc.props import c13
   g = c13.fam_grid()
-  prod = Product([range(g.n), CONFIGS_SMALL])
+  prod = Product([range(g.n), configs or CONFIGS_SMALL])
 
   def dec(i):
     gi, c = prod.decode(i)
@@ -546,4 +546,5 @@ def fam_params():
 
 
 def plan(tier, seed):
-  return [fam_styles(), fam_kinds(), fam_times(tier), fam_params()]
+  # thorough: the style grid under every writer configuration (every syntax x every frame rate)
+  return [fam_styles(CONFIGS_ALL if tier == "thorough" else None), fam_kinds(), fam_times(tier), fam_params()]
